@@ -59,7 +59,11 @@ def main():
             rcb, outb = sh('%s/tools/baseline.sh %s' % (HOME, wt))
             result['suite_still_passes'] = rcb == 0
             result['suite_output'] = outb.strip()[-300:]
-            checks = (args.checks or pid).split(',')
+            if args.checks:
+                checks = args.checks.split(',')
+            else:   # the property's own check plus every check recorded as catching this change before
+                prev = (meta.get('verification') or {}).get('caught_by') or []
+                checks = [pid] + [c for c in prev if c != pid]
             result['checks'] = {}
             for c in checks:
                 for seed in args.seeds.split(','):
